@@ -6,7 +6,8 @@ use std::collections::hash_map::{Drain, Entry, HashMap};
 pub(crate) struct ChannelSlots<T> {
     slots: HashMap<u16, T>,
     freed_channel_ids: IndexSet<u16>,
-    next_channel_id: u16,
+    // u32 so that it can step past channel_max == u16::MAX without wrapping
+    next_channel_id: u32,
     channel_max: u16,
 }
 
@@ -26,7 +27,7 @@ impl<T> ChannelSlots<T> {
         let mut open: Vec<u16> = self.slots.keys().copied().collect();
         open.sort_unstable();
         let freed: Vec<u16> = self.freed_channel_ids.iter().copied().collect();
-        (open, freed, self.next_channel_id, self.channel_max)
+        (open, freed, self.next_channel_id as u16, self.channel_max)
     }
 
     pub(crate) fn drain(&mut self) -> Drain<u16, T> {
@@ -90,8 +91,8 @@ impl<T> ChannelSlots<T> {
         // First try to grab the next available channel ID we're aware of; this
         // could fail if a user requested a channel ID greater than the ones we've
         // handed out from within this function, so keep looking.
-        while self.next_channel_id <= self.channel_max {
-            let channel_id = self.next_channel_id;
+        while self.next_channel_id <= u32::from(self.channel_max) {
+            let channel_id = self.next_channel_id as u16;
             self.next_channel_id += 1;
             match self.slots.entry(channel_id) {
                 Entry::Occupied(_) => continue,
